@@ -45,11 +45,15 @@ def sub_rng(*parts):
 # ----------------------------------------------------------------------------------- ledger
 class Ledger:
     """Every caller-owned array handed to cola: bytes/dtype/shape/strides recorded at creation."""
-    def __init__(self):
+    def __init__(self, readonly=False):
         self.items = {}  # key -> (array, base, digest)
+        self.readonly = readonly
 
     def register(self, key, a, base=None):
         base = a if base is None else base
+        if self.readonly:  # diagnostic replay only: turns a silent mutation into a ValueError naming the line
+            base.flags.writeable = False
+            a.flags.writeable = False
         self.items[key] = (a, base, self._dig(a, base))
 
     def get_or_make(self, key, mk):
@@ -111,7 +115,7 @@ class Ctx:
         self.seed = program.get("run_seed", 0)
         self.mode = program.get("mode", "seed")  # seed | explicit
         self.model = RngModel()
-        self.ledger = Ledger()
+        self.ledger = Ledger(readonly=bool(program.get("readonly")))
         self.pool = {}
         self.builder = Builder(self)
         self.results = {}  # call_key -> {"dig":..., "state":..., "src":...}
@@ -122,11 +126,13 @@ class Ctx:
         self.total_products = 0
         self.step_out = {}  # sid -> materialised step
         self.saved_states = {}
+        self.culprits = []
         self.algs = {}  # name -> (algorithm object, digest of its __dict__)
         self.auto_defaults = [(o, self.alg_digest(o)) for o in world.AUTO_DEFAULTS]
         self.fired = Counter()
         self.samples = []
         self.sched_sig = []  # abstract schedule signature
+        world.USER_FN_HOOK = self.on_user_fn
 
     @staticmethod
     def alg_digest(obj):
@@ -186,10 +192,8 @@ class Ctx:
                     return ["clock", g.choice([-3600.0, -1.0, 0.0, 1e-3, 86400.0])]
         return ["noop"]
 
-    def on_product(self, inner, X, pid):
-        cur = self.cur
-        if self.harness_depth > 0 or cur is None:
-            return inner @ X
+    def yield_point(self, cur):
+        """Control passes to the user party (scheduler draws its action); returns the action."""
         ALLOC.pause()
         try:
             self.total_products += 1
@@ -209,7 +213,14 @@ class Ctx:
         if act[0] == "raise":
             cur.fault_fired.add("raise")
             self.fired["raise"] += 1
-            raise SimFault("injected at product %d" % idx)
+            raise SimFault("injected at callback %d" % idx)
+        return act
+
+    def on_product(self, inner, X, pid):
+        cur = self.cur
+        if self.harness_depth > 0 or cur is None:
+            return inner @ X
+        act = self.yield_point(cur)
         Y = inner @ X
         if act[0] == "nonfinite":
             cur.fault_fired.add("nonfinite")
@@ -218,6 +229,14 @@ class Ctx:
             if Y.size:
                 Y.reshape(-1)[0] = np.nan if act[1] == "nan" else np.inf
         return Y
+
+    def on_user_fn(self):
+        """Other user code that cola runs while a call is in flight (unary f, SLQ fun, Kernel fn)."""
+        cur = self.cur
+        if self.harness_depth > 0 or cur is None:
+            return
+        self.stats["user_fn_callbacks"] += 1
+        self.yield_point(cur)
 
     def user_action(self, cur, act):
         """User-party behaviour at a yield point (top level or inside a callback)."""
@@ -709,6 +728,20 @@ class Ctx:
             raise RuntimeError("twin died without output")
         return json.loads(b"".join(chunks).decode())
 
+    def _materialise(self, sid, cur, f, k):
+        """Record what actually happened at the step's yield points / fault sites (explicit form)."""
+        x = {}
+        if cur.used:
+            x["cb"] = cur.used
+        if k is not None:
+            x["alloc"] = {"k": k, "minb": f["minb"]}
+        if f["pbar_at"] is not None:
+            x["pbar_fail"] = f["pbar_at"]
+        if cur.clock_list:
+            x["clock"] = cur.clock_list
+        if x:
+            self.step_out[sid]["x"] = x
+
     def _guarded(self, step, f, body, store=None):
         """Run body() as the cola call in flight of `step` with the resolved faults."""
         sid = step["id"]
@@ -757,14 +790,15 @@ class Ctx:
                 raise
         except SimFault:
             outcome = ["simfault", ""]
-        except HarnessBound:
-            raise
-        except Violation:
+        except (HarnessBound, Violation):
+            self._materialise(sid, cur, f, k)  # the replay file must contain the action that exposed it
             raise
         except BaseException as e:
             if isinstance(e, (KeyboardInterrupt, SystemExit)):
                 raise
             fired = st[1] >= 0 or bool(cur.fault_fired)
+            if self.ledger.readonly and isinstance(e, ValueError) and "read-only" in str(e):
+                self.culprits.append(_cola_frame(e))
             if fired:
                 outcome = ["faulted", type(e).__name__]
             elif _raised_in_harness(e):
@@ -809,18 +843,7 @@ class Ctx:
                                                  {"k": "result", "of": step["fn"]}, sid)
                     finally:
                         self.harness_depth -= 1
-        # materialise what happened
-        x = {}
-        if cur.used:
-            x["cb"] = cur.used
-        if k is not None:
-            x["alloc"] = {"k": k, "minb": f["minb"]}
-        if f["pbar_at"] is not None:
-            x["pbar_fail"] = f["pbar_at"]
-        if cur.clock_list:
-            x["clock"] = cur.clock_list
-        if x:
-            self.step_out[sid]["x"] = x
+        self._materialise(sid, cur, f, k)
         self._last_used = cur.used
         self._last_ncb = cur.ncb_top
         self._last_ncb_all = cur.ncb
@@ -879,6 +902,17 @@ def _pos(spec, n, g):
 
 
 _ARGERR = re.compile(r"^([\w\.<>]+)\(\) (takes|got|missing)")
+
+
+def _cola_frame(e):
+    tb = e.__traceback__
+    last = None
+    while tb is not None:
+        fn = tb.tb_frame.f_code.co_filename
+        if "/cola/" in fn:
+            last = "%s:%d in %s" % (fn[fn.index("/cola/") + 1:], tb.tb_lineno, tb.tb_frame.f_code.co_name)
+        tb = tb.tb_next
+    return last
 
 
 def _raised_in_harness(e):
@@ -979,6 +1013,7 @@ def run_program(program):
                                 + ctx.stats["reenter_same_key"] + ctx.stats["reenter_other_key"]
                                 + ctx.stats["reseed_inside_callback"]) > 0),
         "program": mat,
+        "culprits": ctx.culprits[:5],
         "call_results": ({k: jhash(v["out"]) for k, v in ctx.results.items()}
                          if (program.get("config") or {}).get("letters") else None),
         "results_digest": jhash({k: v["out"] for k, v in ctx.results.items()}),
